@@ -98,6 +98,10 @@ Definition spec_step_ok (pre : pool) (op : wop) (r : res wout) (ws : list warnin
       match r with
       | Raise _ => pool_unchanged pre post
       | Ok _ => Nat.eqb (length post) (S (length pre)) && pool_unchanged pre (firstn (length pre) post)
+                (* the new object may grow its buffer exactly when it owns it: always for a freshly
+                   allocated one, and for an adopted array iff that array owns its memory *)
+                && Bool.eqb (o_resizable (pget post (length pre)))
+                            (match op with PFromArray _ a _ _ _ _ _ _ _ _ _ => a_owns a | _ => true end)
       end
   | PLoad i a copy start sc =>
       let o := pget pre i in let o' := pget post i in
